@@ -25,7 +25,7 @@ CENSUS = {
             '<VerifiableHeader as VerifiableHeaderPatch>::checked_total_difficulty',
             'LightClientProtocol::check_pow_for_headers', 'LightClientProtocol::check_chain_root_for_headers',
             'LightClientProtocol::check_verifiable_header', 'ProveRequest::is_same_as', 'LastState::is_same_as'],
-    'C02': ['check_block_body', 'verify_extra_hash'],
+    'C02': ['check_block_body', 'verify_extra_hash', '~+Peers::add_block'],
     'C06': ['Peers::calc_check_point_number', 'Peers::calc_cached_check_point_index_when_sync_at',
             '+LatestBlockFilterHashes::update_latest_block_filter_hashes', 'Peers::get_latest_block_filter_hashes',
             'LatestBlockFilterHashes::get_last_number'],
@@ -57,6 +57,11 @@ HANDLERS = {
             '!LightClientProtocol::update_prove_state_to_child@^(Storage::update_last_state|Peers::update_prove_state)$'],
     'C18': ['!<TransactionRpcImpl as TransactionRpc>::send_transaction@^PendingTxs::push$'],
 }
+# the same handler entries are also necessary conditions of other properties (the table is keyed by function)
+HANDLERS['C03'] = [HANDLERS['C06'][0], HANDLERS['C02'][2]]
+HANDLERS['C04'] = [HANDLERS['C01'][0], HANDLERS['C12'][1]]
+HANDLERS['C06'] = HANDLERS['C06'] + [HANDLERS['C02'][2]]
+CENSUS.setdefault('C06', []).append('~+Peers::add_block')
 for _k, _v in HANDLERS.items():
     CENSUS.setdefault(_k, []).extend(_v)
 
